@@ -868,10 +868,15 @@ func checkFeePrice(r *Run) {
 			return 0
 		}
 		isPrice := func(v ssa.Value) bool {
-			return sameQuantity(v, func(y ssa.Value) bool { return strings.HasSuffix(pathOf(y).FieldString(), "Price.Value") || strings.HasSuffix(pathOf(y).FieldString(), "Price") })
+			return sameQuantity(v, func(y ssa.Value) bool {
+				return strings.HasSuffix(pathOf(y).FieldString(), "Price.Value") || strings.HasSuffix(pathOf(y).FieldString(), "Price")
+			})
 		}
 		isMin := func(v ssa.Value) bool {
-			return derivesFrom(v, func(y ssa.Value) bool { cc, ok := y.(*ssa.Call); return ok && calleeName(cc) == "(*data/fees.FeeOption).MinFee" })
+			return derivesFrom(v, func(y ssa.Value) bool {
+				cc, ok := y.(*ssa.Call)
+				return ok && calleeName(cc) == "(*data/fees.FeeOption).MinFee"
+			})
 		}
 		pol := 0
 		if isPrice(c.Call.Args[0]) && isMin(c.Call.Args[1]) {
